@@ -421,31 +421,33 @@ fn get_path_and_canonicalized_parameters(url: &Uri) -> (String, String) {
 
     let query_pairs = query_pairs(url);
     let mut canonicalized_parameters = String::new();
-    let mut pairs: HashMap<String, (String, String)> = HashMap::new();
+    // keep every parameter (a map keyed by key+value would drop one of `a=bc` / `ab=c` and any repeated pair)
+    let mut pairs: Vec<(String, String, String)> = Vec::new();
     if !query_pairs.is_empty() {
         for (key, value) in query_pairs {
             let key = key.to_lowercase();
-            pairs.insert(
+            pairs.push((
                 // add the query parameter value for sorting,
                 // just in case of duplicate keys by value lexicographically in ascending order.
                 format!("{}{}", key, value),
-                (key.to_lowercase(), value.to_string()),
-            );
+                key,
+                value.to_string(),
+            ));
         }
 
         // Sort the parameters lexicographically by parameter name and value, in ascending order.
+        pairs.sort();
         let mut first = true;
-        for key in pairs.keys().sorted() {
+        for (_, key, value) in &pairs {
             if !first {
                 canonicalized_parameters.push('&');
             }
             first = false;
-            let query_pair = pairs[key].clone();
             // Join each parameter key value pair with '='
-            let p = if query_pair.1.is_empty() {
+            let p = if value.is_empty() {
                 key.to_string()
             } else {
-                format!("{}={}", query_pair.0, query_pair.1)
+                format!("{}={}", key, value)
             };
             canonicalized_parameters.push_str(&p);
         }
